@@ -237,7 +237,9 @@ def required_covers(tier):
 def configs(tier):
     if tier == 'quick':
         return [dict(name='2clients', factory=lambda: Harness(2, ['add', 'walk', 'add-snap'], 1, 'q'),
-                     bounds='2 clients, each one program out of {add_version; walk two child versions; add_version then add_snapshot} starting from a chain of 0-1 versions; every interleaving of their Service requests')]
+                     bounds='2 clients, each one program out of {add_version; walk two child versions; add_version then add_snapshot} starting from a chain of 0-1 versions; every interleaving of their Service requests'),
+                dict(name='3clients', factory=lambda: Harness(3, ['add', 'walk'], 0, 'q3'),
+                     bounds='3 clients, each add_version or a walk of two child versions, empty store; every interleaving')]
     return [dict(name='2clients-all', factory=lambda: Harness(2, PROGRAMS, 1, 't'), bounds='2 clients, all four programs incl. two consecutive add_versions', time_limit_s=3300),
             dict(name='2clients-page1', factory=lambda: Harness(2, ['add', 'walk'], 1, 'p1', page_size=1), bounds='list page size 1: every page fetch is a scheduling point', time_limit_s=3300),
             dict(name='3clients', factory=lambda: Harness(3, ['add', 'walk'], 0, 't3'), bounds='3 clients, add_version or walk', time_limit_s=3300)]
